@@ -163,3 +163,13 @@ Theorem C09_new_complex_keeps_world_ownership :
   forall w v w' o, exec w (CNew v) = (w', o) -> wown w -> wown w'.
 Proof. exact new_keeps_wown. Qed.
 Print Assumptions C09_new_complex_keeps_world_ownership.
+
+Theorem C09_new_filtration_and_queries_keep_world_ownership :
+  forall w, wown w ->
+  (forall v i w' o, exec w (CNewF v i) = (w', o) -> wown w') /\
+  (forall v q w' o, exec w (CQuery v q) = (w', o) -> wown w').
+Proof.
+  intros w W. split; [intros v i w' o H; exact (newf_keeps_wown _ _ _ _ _ H W)|].
+  intros v q w' o H. exact (query_keeps_wown _ _ _ _ _ H W).
+Qed.
+Print Assumptions C09_new_filtration_and_queries_keep_world_ownership.
